@@ -31,7 +31,7 @@ def registry():
         if os.path.exists(os.path.join(C.VERIF, "lean", "TinyFlux", "Props", f"{pid}Mirror.lean")):
             # theorems over Generated/IndexImpl.lean: index.py translated method by method (class mode of the translator)
             ent["lean"].append(f"TinyFlux.Props.{pid}Mirror")
-            ent["gen"] = tuple(ent.get("gen", ())) + ("IndexImpl",) + (("DatabaseImpl",) if pid in ("C01", "C02", "C07") else ())
+            ent["gen"] = tuple(ent.get("gen", ())) + ("IndexImpl",) + (("DatabaseImpl",) if pid in ("C01", "C02", "C06", "C07") else ())
         ent["gen"] = tuple(ent.get("gen", ())) + ("Footprint", "CallGraph")
     return reg
 
